@@ -129,11 +129,79 @@ def r9_4(repo: Repo) -> RuleResult:
     return rr
 
 
-RULES = [r9_1, r9_2, r9_3, r9_4]
+def r9_5(repo: Repo) -> RuleResult:
+    rr = RuleResult("R9.5", "every learned token is recorded together with its pair and its length; the merge list that is replayed is the one that was learned", floor=3)
+    f = repo.func(MG, "bpe_train")
+    rets = [n for n in walk_no_nested(f.node) if isinstance(n, ast.Return) and isinstance(n.value, ast.Tuple)]
+    if not rets or len(rets[0].value.elts) < 4 or not all(isinstance(e, ast.Name) for e in rets[0].value.elts[:4]):
+        raise AnalysisError("R9.5: bpe_train does not return (tokens, code_list, encodings, max_char_code) by name")
+    tok, codes, enc, mcc = [e.id for e in rets[0].value.elts[:4]]
+    from .common import parents_map, enclosing_stmt
+
+    pm = parents_map(f.node)
+
+    def block_of(call):
+        st = enclosing_stmt(call, pm)
+        parent = pm[id(st)]
+        for fld in ("body", "orelse", "finalbody"):
+            b = getattr(parent, fld, None)
+            if isinstance(b, list) and any(st is x for x in b):
+                return b
+        return None
+
+    t_apps = [n for n in walk_no_nested(f.node) if isinstance(n, ast.Call) and norm(n.func) == "%s.append" % tok]
+    c_apps = [n for n in walk_no_nested(f.node) if isinstance(n, ast.Call) and norm(n.func) == "%s.append" % codes]
+    problems = []
+    for a in t_apps:
+        b = block_of(a)
+        mates = [c for c in c_apps if block_of(c) is b]
+        if len(mates) != 1:
+            problems.append("a token is appended (line %d) without its pair being appended to the merge list in the same block" % a.lineno)
+        else:
+            # the token string is built from the very pair that is recorded
+            pair = norm(mates[0].args[0])
+            if pair not in norm(a.args[0]):
+                problems.append("the token appended at line %d is not built from the recorded pair `%s`" % (a.lineno, pair))
+    if len(c_apps) != len(t_apps):
+        problems.append("merge list and token list are appended %d vs %d times" % (len(c_apps), len(t_apps)))
+    if problems:
+        rr.bad(f, "token / pair bookkeeping", "; ".join(problems), f.node.lineno)
+    else:
+        rr.ok(f, "token / pair bookkeeping", "%d paired appends to %s and %s" % (len(t_apps), tok, codes), f.node.lineno)
+    # the fitted max_char_code is the running maximum over the training characters
+    upd = [n for n in walk_no_nested(f.node) if isinstance(n, ast.Assign) and norm(n.targets[0]) == mcc]
+    guards = [n for n in walk_no_nested(f.node) if isinstance(n, ast.If) and any(u is x for u in upd for x in ast.walk(n))]
+    ok = bool(upd) and all(isinstance(g.test, ast.Compare) and isinstance(g.test.ops[0], ast.Gt) and norm(g.test.comparators[0]) == mcc
+                           and norm(g.test.left) == norm(u.value) for g in guards for u in upd if any(u is x for x in ast.walk(g)))
+    if ok and mcc in f.params:
+        rr.ok(f, "max_char_code", "returned value is the parameter raised to the largest training character", upd[0].lineno)
+    else:
+        rr.bad(f, "max_char_code", "the max_char_code handed back to the vectorizer is not the running maximum `if c > max: max = c` over the training characters", f.node.lineno)
+    # the vectorizer stores them and replays exactly those
+    ft = repo.func(MG, "BytePairEncodingVectorizer.fit_transform")
+    tr = repo.func(MG, "BytePairEncodingVectorizer.transform")
+    stores = [n for n in walk_no_nested(ft.node) if isinstance(n, ast.Assign) and isinstance(n.targets[0], ast.Tuple) and isinstance(n.value, ast.Call)
+              and norm(n.value.func) == "bpe_train"]
+    if not stores:
+        raise AnalysisError("R9.5: fit_transform does not unpack bpe_train's result")
+    tg = [norm(x) for x in stores[0].targets[0].elts]
+    enc_all = repo.func(MG, "bpe_encode_all")
+    calls = [c for c in repo.calls_in(tr) if enc_all in repo.resolve_call(tr, c)]
+    b = repo.bind_args(enc_all, calls[0]) if calls else {}
+    want = {"code_list": tg[1], "max_char_code": tg[3]}
+    got = {k: norm(v) for k, v in b.items() if k in want}
+    if got == want:
+        rr.ok(tr, "replay arguments", "transform replays %s with %s" % (tg[1], tg[3]), calls[0].lineno)
+    else:
+        rr.bad(tr, "replay arguments", "transform encodes with %s but fit stored the merge list / character limit in %s" % (got, want), tr.node.lineno)
+    return rr
+
+
+RULES = [r9_1, r9_2, r9_3, r9_4, r9_5]
 CLAIM = (
     "R9.1 definite assignment in every kernel of mixed_gram_vectorizer.py (the empty / one-character string clause); "
     "R9.2 all decode sites agree on `code <= mcc` and offset `code - mcc - 1`, both encoders start at mcc + 1 and advance "
-    "by one per merge (symbolic); R9.3 the vocabulary budget loop shape; R9.4 the out-of-range character mapping."
+    "by one per merge (symbolic); R9.3 the vocabulary budget loop shape; R9.4 the out-of-range character mapping; R9.5 bookkeeping pairing: token and pair are appended together, the returned max_char_code is the running maximum, and transform replays exactly the stored merge list and limit."
 )
 NOT_DECIDED = (
     "losslessness for arbitrary strings, equality of transform and fit_transform encodings, and correctness of the "
